@@ -102,6 +102,11 @@ CHECKS = {
    "Schemes, host forms, ports (incl. default 389/636 listeners bound by the harness), percent-encoded socket paths, StartTLS, pre-opened streams of every kind, connection timeouts, silent servers and broken URLs; per-case listeners count accepts so a connection to the wrong endpoint is visible; panics are always violations.",
    "Trusted base: dispatch model of DESIGN.md Appendix C, harness servers, test PKI. Real sockets/wall time: env-* problems are exit 2; undefined URLs only checked for panics.",
    "DESIGN.md §3 C18, Appendix C", "harness"),
+ "C14": ("exploration",
+   "property-based testing (proptest), differential: the same generated script is executed through LdapConn/EntryStream and through Ldap/SearchStream against the same scripted server logic over Unix sockets; transcripts (decoded by the independent RFC 4511 decoder) and all return values are compared",
+   "Scripts over the whole sync surface incl. all four constructors, the three modifiers, every operation, streams read to the end or stopped early, and server behaviours success / error code / silence with client timeout / disconnect; wire transcripts and results must be equal between the two APIs.",
+   "Trusted base: harness request decoder, blocking scripted server. Real time but never borderline (immediate answers, or silence with a 40 ms timeout in both runs); nothing timing-dependent is compared after a disconnect.",
+   "DESIGN.md §3 C14", "harness"),
 }
 
 NOT_YET = {}
